@@ -4,7 +4,7 @@
    within its fuel. *)
 From Coq Require Import NArith List Bool Arith Lia.
 Import ListNotations.
-From LTV.C06 Require Import ParamsGen Model ProofsInv ProofsRun ProofsOcc.
+From LTV.C06 Require Import ParamsProbe Model ProofsInv ProofsRun ProofsOcc.
 
 Definition Inv (s : hst) : Prop := InvB s /\ InvL s.
 
